@@ -319,6 +319,50 @@ def uncovered(r, open_labels):
     return [(b, i, c) for (b, i, c) in r["bad"] if (b, i) not in cov]
 
 
+def shrink_case(prop, cfg, case, case_file, open_labels, outdir, seed, tier, log, timeout, budget_s=90):
+    """Delta-debugging over the list fields named in cfg['shrink_fields'] of a generator-form case:
+    candidates with chunks removed are run through implementation + model + K in one batch per
+    iteration; a candidate that still fails K (outside the open known findings) replaces the case."""
+    fields = [f for f in cfg.get("shrink_fields", []) if isinstance(case.get(f), list) and len(case[f]) > 1]
+    if not fields:
+        return case, 0
+    t0, iters = time.time(), 0
+    cur = case
+    chunk = {f: max(1, len(cur[f]) // 2) for f in fields}
+    while time.time() - t0 < budget_s and iters < 12:
+        cands = []
+        for f in fields:
+            L = cur[f]
+            n = chunk[f]
+            if len(L) <= 1:
+                continue
+            for i in range(0, len(L), n):
+                c = json.loads(json.dumps(cur))
+                c[f] = L[:i] + L[i + n:]
+                if c[f]:
+                    cands.append(c)
+        if not cands:
+            break
+        cands = cands[:40]
+        rp = os.path.join(outdir, "shrink_candidates.json")
+        json.dump({"property": prop, "case_file": case_file, "cases": cands}, open(rp, "w"))
+        r = explore(prop, cfg, outdir, seed, None, tier, rp, log, timeout)
+        iters += 1
+        unc = uncovered(r, open_labels)
+        better = [c for (b, i, c) in unc if c is not None]
+        if better:
+            cur = min(better, key=lambda c: len(json.dumps(c)))
+            chunk = {f: max(1, min(chunk[f], len(cur[f]) // 2)) for f in fields if isinstance(cur.get(f), list)}
+            fields = [f for f in fields if isinstance(cur.get(f), list) and len(cur[f]) > 1]
+            if not fields:
+                break
+        else:
+            if all(chunk[f] == 1 for f in fields):
+                break
+            chunk = {f: max(1, chunk[f] // 2) for f in fields}
+    return cur, iters
+
+
 def write_replay(prop, kind, payload):
     os.makedirs(REPLAYS, exist_ok=True)
     h = hashlib.sha1(json.dumps(payload, sort_keys=True, default=str).encode()).hexdigest()[:12]
@@ -398,8 +442,14 @@ def main(argv):
         unc = uncovered(r, open_labels)
         if unc:
             b, i, c = min(unc, key=lambda x: len(json.dumps(x[2])))
+            shrunk = 0
+            if c is not None and not a.replay and cfg.get("shrink_fields"):
+                try:
+                    c, shrunk = shrink_case(prop, cfg, c, b, open_labels, outdir, seed, tier, log, tmo)
+                except Exception as ex:  # shrinking is best effort; the unshrunk case is still a valid replay
+                    log.append("[shrink] failed: %r" % (ex,))
             path = write_replay(prop, "fail", {"property": prop, "seed": seed, "kind": "checker-K-fails-on-implementation-output",
-                                               "cases": [c], "case_file": b, "index": i,
+                                               "cases": [c], "case_file": b, "index": i, "shrink_iterations": shrunk,
                                                "how": "./check %s --replay <this file>" % prop,
                                                "also_failing": len(unc)})
             violation = (path, "")
